@@ -308,10 +308,12 @@ func (r *AvPacket2RtmpRemuxer) FeedAvPacket(pkt base.AvPacket) {
 				r.hasAdts2Asc = true
 			}
 
-			length := len(pkt.Payload) - 5 // -7+2
-			if length < 7 {
+			// only a packet without any data behind the adts header carries no frame; short frames (a few bytes of
+			// raw data, e.g. digital silence) are valid and must not be dropped
+			if len(pkt.Payload) <= aac.AdtsHeaderLength {
 				return
 			}
+			length := len(pkt.Payload) - 5 // -7+2
 			payload := make([]byte, length)
 			payload[0] = 0xAF
 			payload[1] = base.RtmpAacPacketTypeRaw
